@@ -1349,6 +1349,11 @@ def conclude(prop, tier, results, known, outdir, t0):
             if "INFRA" in own:
                 infra.append(d)
                 continue
+            # no divergence is ever dropped: if none of the properties that own it runs this family, every property that
+            # does run the family reports it
+            runners = {p for p, v in PROPS.items() if res["family"] in v["families"]}
+            if not (own & runners):
+                own |= runners
             if prop not in own:
                 foreign += 1
                 continue
